@@ -19,7 +19,8 @@ RULE = ("(TLE, time, observer) triples: observers uniform over the globe, at the
         "with altitudes -0.5..9 km (observers below the ellipsoid included); module-level function also with geostationary altitudes; "
         "both functions with array-valued observers (float64, float32, integer-typed whole-degree grids, 2-d); both functions with the "
         "time given in every representation of one instant (naive UTC, UTC-aware, offset-aware, datetime64[ns|us|ms|s]; process in "
-        "UTC and non-UTC local zones) judged at the true instant; correspondence: "
+        "UTC and non-UTC local zones) judged at the true instant; datetime64[ns] scalars and arrays with non-zero sub-microsecond "
+        "digits judged at the instant given by the exact integer nanoseconds, observers near the sub-satellite point; correspondence: "
         "azimuth/elevation and the south/east/zenith components model vs both implementations at 1e-9; oracle: independent "
         "WGS-84 east-north-up frame within 1e-4 deg (azimuth weighted by cos elevation) for the method and for the module-level "
         "function (satellite at the lon/lat/alt it is given), finiteness everywhere, method vs "
@@ -236,6 +237,87 @@ def check_time_repr(ctx, a, b, t, kind, off_min, tz, lon, lat, alt, o=None):
     return len(ctx.violations) - n0
 
 
+def check_ns_stamps(ctx, a, b, stamps_ns, form, lon, lat, alt, o=None):
+    """Time stamps of nanosecond resolution whose sub-microsecond digits are NOT zero (instrument time tags, linspace-like
+    arithmetic on datetime64[ns]): stamps_ns are exact integer nanoseconds since 1970-01-01T00:00 UTC, handed to both look
+    functions as a datetime64[ns] scalar (form "ns_scalar", one stamp) or as a 1-d datetime64[ns] array (form "ns_array").
+    Each answer is judged against the independent east-north-up frame at the TRUE instant: the reference sidereal angle is
+    computed from the exact integer nanoseconds (Fraction Julian date, 60-digit arithmetic)."""
+    from pyorbital import orbital
+    o = o or orbital.Orbital("x", line1=a, line2=b)
+    n0 = len(ctx.violations)
+    stamps_ns = [int(x) for x in stamps_ns]
+    if form == "ns_scalar":
+        val = np.datetime64(stamps_ns[0], "ns")
+    else:
+        val = np.array(stamps_ns, dtype="int64").astype("datetime64[ns]")
+    refs = []
+    for ns in stamps_ns:
+        jd, label = c12.exact_jd_ns(ns)
+        th = float(c12.iau82_gmst(jd))
+        pk, _ = o.get_position(np.datetime64(ns, "ns"), normalize=False)
+        # the sub-satellite point handed to the module function: taken at the whole microsecond (a datetime), so that it does
+        # not depend on how the library treats the sub-microsecond digits; the reference is the direction to THAT point
+        whole = c12.EPOCH70 + dt.timedelta(microseconds=ns // 1000)
+        sat = [float(x) for x in o.get_lonlatalt(whole)]
+        refs.append((label, sat, {"Orbital.get_observer_look": geo.look_ref(pk, lon, lat, alt, th),
+                                  "orbital.get_observer_look": geo.look_ref(geo.geodetic_to_eci(sat[0], sat[1], sat[2], th),
+                                                                            lon, lat, alt, th)}))
+    case = {"line1": a, "line2": b, "stamps_ns": stamps_ns, "form": form, "utc": refs[0][0], "lon": lon, "lat": lat, "alt": alt,
+            "fn": "ns-stamps"}
+    for site in ("Orbital.get_observer_look", "orbital.get_observer_look"):
+        try:
+            with warnings.catch_warnings():
+                warnings.simplefilter("ignore")
+                if site.startswith("Orbital"):
+                    az, el = o.get_observer_look(val, lon, lat, alt)
+                elif form == "ns_scalar":
+                    sat = refs[0][1]
+                    az, el = orbital.get_observer_look(np.float64(sat[0]), np.float64(sat[1]), np.float64(sat[2]), val,
+                                                       np.float64(lon), np.float64(lat), np.float64(alt))
+                else:
+                    az, el = orbital.get_observer_look(np.array([r_[1][0] for r_ in refs]), np.array([r_[1][1] for r_ in refs]),
+                                                       np.array([r_[1][2] for r_ in refs]), val,
+                                                       np.float64(lon), np.float64(lat), np.float64(alt))
+            az = np.asarray(az, dtype=np.float64).ravel()
+            el = np.asarray(el, dtype=np.float64).ravel()
+            if len(az) != len(stamps_ns) or len(el) != len(stamps_ns):
+                raise ValueError("answer of %d/%d elements for %d time stamps" % (len(az), len(el), len(stamps_ns)))
+        except Exception as e:  # noqa
+            ctx.violation("time_repr_rejected", dict(case, site=site), "%s: %s" % (type(e).__name__, e),
+                          "azimuth and elevation of the instants %s" % [r_[0] for r_ in refs], site=site)
+            continue
+        for i, (label, sat, ref) in enumerate(refs):
+            ctx.count("eval_oracle_ns_stamps")
+            ctx.bump("ns_stamp_elevation", "el>=60" if ref[site][1] >= 60 else "el>=20" if ref[site][1] >= 20 else
+                     "el>=0" if ref[site][1] >= 0 else "below horizon")
+            judge(ctx, dict(case, site=site, index=i, instant=label), float(az[i]), float(el[i]), ref[site][0], ref[site][1], site)
+    return len(ctx.violations) - n0
+
+
+def ns_stamp_probe(ctx, a, b, o, t):
+    """Stamps with sub-microsecond digits around the instant t, for observers near the sub-satellite point (high passes, where
+    the direction is most sensitive to the observer's sidereal angle) and elsewhere; scalar and array forms."""
+    r = ctx.rng
+    obs, _ = observers_for(ctx, o, t)
+    base = c12.us_of(t) * 1000
+
+    def sub():
+        return r.choice([r.randrange(1, 1000), r.randrange(1, 1000), 999, 1, 500, r.randrange(900, 1000)])
+    # scalar stamps: exactly under, near (within 5 deg), and any other observer of the structured list
+    for (lon, lat, alt) in [obs[2], obs[5], obs[10], r.choice(obs)]:
+        ctx.bump("ns_stamp_form", "ns_scalar")
+        check_ns_stamps(ctx, a, b, [base + sub()], "ns_scalar", lon, lat, alt, o)
+    # arrays: k stamps a few seconds apart (a pass sampled with a non-integer step), one observer near the track
+    k = r.choice([1, 2, 3, 5])
+    step = r.randrange(10 ** 9, 40 * 10 ** 9)
+    stamps = [base + i * step + sub() for i in range(k)]
+    if all(orbits.answers(o, np.datetime64(x, "ns")) for x in stamps):
+        lon, lat, alt = r.choice([obs[3], obs[5], obs[10], obs[11]])
+        ctx.bump("ns_stamp_form", "ns_array[%d]" % k)
+        check_ns_stamps(ctx, a, b, stamps, "ns_array", lon, lat, alt, o)
+
+
 def oracle(ctx):
     from pyorbital import orbital
     n = ctx.size(25, 300)
@@ -264,6 +346,9 @@ def oracle(ctx):
                 lon, lat, alt = r.choice(obs)
                 ctx.bump("time_repr", kind + ("%+d" % off if kind == "aware" else ""))
                 check_time_repr(ctx, a, b, t, kind, off, tz, lon, lat, alt, o)
+        # nanosecond time stamps with non-zero sub-microsecond digits (datetime64[ns] scalars and arrays)
+        for t in times[:ctx.size(3, 8)]:
+            ns_stamp_probe(ctx, a, b, o, t)
     # module-level function at geostationary altitudes and with arrays (float64, float32, integer-typed grids, 2-d)
     for _ in range(ctx.size(300, 5000)):
         r = ctx.rng
@@ -323,6 +408,11 @@ def replay(ctx, case):
     if "line1" not in inp:
         print(inp)
         return 0
+    if inp.get("fn") == "ns-stamps":
+        n = check_ns_stamps(ctx, inp["line1"], inp["line2"], inp["stamps_ns"], inp["form"], inp["lon"], inp["lat"], inp["alt"])
+        for v in ctx.violations[-n:] if n else []:
+            print("ns stamps", inp["stamps_ns"], inp["form"], v["site"], v["kind"], v["observed"], "required", v["required"])
+        return 1 if n else 0
     t = dt.datetime.fromisoformat(inp["utc"])
     if inp.get("fn") == "time-repr":
         n = check_time_repr(ctx, inp["line1"], inp["line2"], t, inp["time_repr"], inp["offset_min"], inp.get("tz"),
